@@ -40,6 +40,14 @@ def all_clauses(ip, c, which, params, extra=None):
     return out
 
 
+def call_spec(ip, spec, params):
+    """call a spec function (same signature as the real function, possibly with *varargs)"""
+    vals = [params[a.arg] for a in spec.node.args.args]
+    if spec.node.args.vararg is not None:
+        vals.extend(params[spec.node.args.vararg.arg])
+    return ip.call_ast(spec, vals, {})
+
+
 def call_contract_fn(ip, c, which, params, extra=None):
     """call requires / ensures / spec of contract c with the given parameter values"""
     f = ip.reg.contract_fn(c, which)
@@ -52,6 +60,10 @@ def call_contract_fn(ip, c, which, params, extra=None):
             vals.append(extra[n])
         elif n in params:
             vals.append(params[n])
+        elif which == 'ensures' and ip.ctx.ghost.get('body_env') is not None and c.key == ip.verifying:
+            # a local variable of the verified body (None if the path never assigned it)
+            found, v = ip.ctx.ghost['body_env'].lookup(n)
+            vals.append(v if found else None)
         else:
             raise Unsupported(f'contract {c.key}.{which}: unknown parameter {n}')
     return ip.call_ast(f, vals, {})
@@ -71,6 +83,25 @@ def apply_to_params(ip, c, params):
     ctx = ip.ctx
     used = ctx.ghost.setdefault('contracts_used', set())
     used.add(c.key)
+    # 0. call-site assertions of the caller's contract (over the caller's locals and `callee`)
+    fr = ip.frames[-1] if ip.frames else None
+    if fr is not None and fr.get('key') == ip.verifying and ip.spec_depth == 0:
+        cc = ip.reg.get(fr['key'])
+        sites = cc.cls.__dict__.get('sites', {}) if cc is not None else {}
+        sf = sites.get((short, k), sites.get(short))
+        if sf is not None:
+            af = ip.reg.side_ast(getattr(sf, '__func__', sf))
+            vals = []
+            for n in [a.arg for a in af.node.args.args]:
+                if n == 'callee':
+                    vals.append(Old(dict(params)))
+                else:
+                    found, v = fr['env'].lookup(n)
+                    if not found:
+                        raise Unsupported(f'site assertion {cc.key}[{short}#{k}]: no local {n}')
+                    vals.append(v)
+            for label, cond in ip.clauses(ip.call_ast(af, vals, {})):
+                ctx.oblige(f'{caller}/site[{short}#{k}]/{label}', cond, 'site')
     # 1. preconditions are obligations of the caller
     for label, cond in all_clauses(ip, c, 'requires', params):
         ctx.oblige(f'{site}/{label}', cond, 'pre')
@@ -82,10 +113,13 @@ def apply_to_params(ip, c, params):
     if spec is not None:
         # deterministic summary executed in place on the caller's objects
         try:
-            names = [a.arg for a in spec.node.args.args]
-            result = ip.call_ast(spec, [params[n] for n in names], {})
+            result = call_spec(ip, spec, params)
         except PyRaise as r:
             raised = r
+    elif _is_noop(ip, c, params):
+        # the contract's own postcondition says nothing changes in this situation (e.g. no plugin
+        # installed): apply that directly instead of havoc followed by assumed equalities
+        pass
     else:
         # havoc what the contract says may change, then pick an outcome
         mods = c.modifies
@@ -98,7 +132,10 @@ def apply_to_params(ip, c, params):
             _havoc_path(ip, params, path, tag)
         n_out = 1 + len(c.raises)
         if n_out > 1:
-            ch = ctx.choose([True] * n_out, f'outcome[{short}]')
+            # which outcome: an unknown but fixed function of (callee, call ordinal), so that body run
+            # and spec run of a refinement check agree
+            oc = z3.Int(f'outcome_{tag}')
+            ch = ctx.choose([oc == j for j in range(n_out)], f'outcome[{short}]')
             if ch > 0:
                 cls = c.raises[ch - 1]
                 raised = PyRaise(cls, PyExcVal(cls, ()))
@@ -118,6 +155,17 @@ def apply_to_params(ip, c, params):
     if raised is not None:
         raise raised
     return result
+
+
+def _is_noop(ip, c, params):
+    f = c.cls.__dict__.get('noop_when')
+    if f is None:
+        return False
+    af = ip.reg.side_ast(getattr(f, '__func__', f))
+    cond = ip.truth(ip.call_ast(af, [params[a.arg] for a in af.node.args.args], {}))
+    if isinstance(cond, bool):
+        return cond
+    return ip.ctx.valid(cond)
 
 
 def _havoc_path(ip, params, path, tag):
